@@ -50,6 +50,9 @@ def run(ctx, FS):
         r = "R-09.5"
         ctx.rule(r, "a finalized hash carries LengthEncoding::new(processed_len().unwrap_or(u32::MAX))", "N")
         common.finalize_length_source(ctx, F, r)
+        # ... and that number is what update() counted: checked conversion of each piece length, saturating at MAX_LEN (shared with C11)
+        from . import c11
+        c11.guards(ctx, F, "R-09.6")
 
 
 def encoder(ctx, r, F, T):
